@@ -3,29 +3,29 @@
    assumptions on every run.  Non-vacuity examples are in Examples.v. *)
 From Yv Require Import Common.Base C18.Model C18.Spec C18.Run C18.Proofs C18.Examples.
 
-(* the byte-level machine (chunked descriptor, one byte per read, lexer line buffer) does exactly what the line-level reference semantics says, for every parser, script source, chunking and fuel *)
+(* the byte-level machine (chunked descriptor, one byte per read, lexer line buffer with its pending text) does exactly what the line-level reference semantics says, for every parser, script source, chunking and fuel *)
 Theorem model_refines_spec :
-  forall parser fuel src d, model_run parser fuel src d = spec_run parser fuel (abs_src src) (abs_dev d).
+  forall parser fuel pf src d, model_run parser fuel pf src d = spec_run parser fuel pf (abs_src src) (abs_dev d).
 Proof. exact model_refines_spec_lemma. Qed.
 
-(* the property as a relation: every run of the model on a script on standard input, in any chunking, is a sequence of steps each taking exactly the lines the parser needs for one command and then running it on what follows, before anything of the next command is read (the parser state of the next step is the one the command left) *)
+(* the property as a relation: every run of the model on a script on standard input, in any chunking, is a sequence of steps each taking exactly the lines the parser needs for one command (none when the command comes out of text pending in the line buffer and that suffices) and then running it on what follows, before anything of the next command is read; the parser of the next step gets the state the command left *)
 Theorem run_is_line_by_line :
-  forall parser fuel (d : dev), f_tag (model_run parser fuel SrcStdin d) <> FOutOfFuel -> f_tag (model_run parser fuel SrcStdin d) <> FStuck -> line_by_line parser (mkX (mkSh (mkP [] false) [] 0) (split_lines (concat d)) 0 []) false (model_run parser fuel SrcStdin d).
+  forall parser fuel pf (d : dev), f_tag (model_run parser fuel pf SrcStdin d) <> FOutOfFuel -> f_tag (model_run parser fuel pf SrcStdin d) <> FStuck -> line_by_line parser (mkX (mkSh (mkP [] false) [] 0) (split_lines (concat d)) 0 []) false false [] [] (model_run parser fuel pf SrcStdin d).
 Proof. exact run_is_line_by_line_lemma. Qed.
 
-(* two deliveries of the same bytes on standard input, cut into chunks in any two ways, give the same run (records, values read, positions, status) *)
+(* two deliveries of the same bytes (any bytes, not only UTF-8) on standard input, cut into chunks in any two ways, give the same run *)
 Theorem chunking_irrelevant :
-  forall parser fuel (d1 d2 : dev), concat d1 = concat d2 -> model_run parser fuel SrcStdin d1 = model_run parser fuel SrcStdin d2.
+  forall parser fuel pf (d1 d2 : dev), concat d1 = concat d2 -> model_run parser fuel pf SrcStdin d1 = model_run parser fuel pf SrcStdin d2.
 Proof. exact chunking_irrelevant_lemma. Qed.
 
 (* the same when the script has a descriptor of its own *)
 Theorem chunking_irrelevant_script_file :
-  forall parser fuel (s1 s2 d1 d2 : dev), concat s1 = concat s2 -> concat d1 = concat d2 -> model_run parser fuel (SrcOwn s1) d1 = model_run parser fuel (SrcOwn s2) d2.
+  forall parser fuel pf (s1 s2 d1 d2 : dev), concat s1 = concat s2 -> concat d1 = concat d2 -> model_run parser fuel pf (SrcOwn s1) d1 = model_run parser fuel pf (SrcOwn s2) d2.
 Proof. exact chunking_irrelevant_own_lemma. Qed.
 
 (* a script file and a -c string with the same text run alike *)
 Theorem script_file_equals_command_string :
-  forall parser fuel (s d : dev), model_run parser fuel (SrcOwn s) d = model_run parser fuel (SrcMem (split_lines (concat s))) d.
+  forall parser fuel pf (s d : dev), model_run parser fuel pf (SrcOwn s) d = model_run parser fuel pf (SrcMem (split_lines (concat s))) d.
 Proof. exact file_equals_string_lemma. Qed.
 
 (* the chunked descriptor the check builds from the harness' chunk sizes holds exactly the script *)
@@ -33,44 +33,54 @@ Theorem chunks_hold_the_script :
   forall sizes x, concat (chunk sizes x) = x.
 Proof. exact concat_chunk. Qed.
 
-(* parsing one command takes from the descriptor exactly the first k lines, k the least number after which the parser stops asking; the position advances by their length and everything after them is still in the descriptor *)
+(* parsing one command takes from the descriptor exactly the first k lines, k the least number after which the parser stops asking (k may be 0 when text is pending in the line buffer); the position advances by their length and everything after them is still in the descriptor; a line ends at the first newline byte whatever the other bytes are *)
 Theorem consumes_minimal_lines :
-  forall parser pf st (d : dev) off r src' d' off' eof', pull_loop byte_ops parser pf st [] SrcStdin d off false = (PhDone r, (src', d', off', eof')) -> exists k, decides parser st (split_lines (concat d)) k r /\ concat d = concat (firstn k (split_lines (concat d))) ++ concat d' /\ off' = (off + nlen (concat (firstn k (split_lines (concat d)))))%N /\ concat d' = concat (skipn k (split_lines (concat d))).
+  forall parser pf sts pend fed0 (d : dev) off r fed' src' d' off' eof', parse_phase byte_ops parser pf sts pend fed0 SrcStdin d off false = (PhDone r, (fed', src', d', off', eof')) -> exists k, decides parser sts (if pend then fed0 else []) (if pend then 0 else 1)%nat (split_lines (concat d)) k r /\ concat d = concat (firstn k (split_lines (concat d))) ++ concat d' /\ off' = (off + nlen (concat (firstn k (split_lines (concat d)))))%N /\ concat d' = concat (skipn k (split_lines (concat d))) /\ fed' = (if pend then fed0 else []) ++ firstn k (feedable (split_lines (concat d))).
 Proof. exact consumes_minimal_lines_lemma. Qed.
 
 (* when a command starts, the descriptor holds exactly the lines that follow the command: a command reading everything gets exactly them, `read -r` gets exactly the next line and leaves the rest *)
 Theorem fd_position_after_command :
-  forall parser pf st (d : dev) off c src' d' off' eof', pull_loop byte_ops parser pf st [] SrcStdin d off false = (PhDone (PComplete c), (src', d', off', eof')) -> exists k, decides parser st (split_lines (concat d)) k (PComplete c) /\ let following := skipn k (split_lines (concat d)) in concat d' = concat following /\ (forall sh evs, x_evs (fst (exec byte_ops CSlurp (mkX sh d' off' evs))) = evs ++ [Ev 2 [concat following] (s_status sh) off']) /\ (forall sh evs v, let y := fst (exec byte_ops (CRead true v) (mkX sh d' off' evs)) in get_var v (s_vars (x_sh y)) = read_value (fst (scan_line true (hd [] following))) /\ concat (x_in y) = concat (tl following) /\ x_off y = (off' + nlen (hd [] following))%N).
+  forall parser pf sts pend fed0 (d : dev) off c p fed' src' d' off' eof', parse_phase byte_ops parser pf sts pend fed0 SrcStdin d off false = (PhDone (PComplete c p), (fed', src', d', off', eof')) -> exists k, decides parser sts (if pend then fed0 else []) (if pend then 0 else 1)%nat (split_lines (concat d)) k (PComplete c p) /\ let following := skipn k (split_lines (concat d)) in concat d' = concat following /\ (forall sh evs, x_evs (fst (exec byte_ops CSlurp (mkX sh d' off' evs))) = evs ++ [Ev 2 [concat following] (s_status sh) off']) /\ (forall sh evs v, let y := fst (exec byte_ops (CRead true NL v) (mkX sh d' off' evs)) in get_var v (s_vars (x_sh y)) = read_value (fst (scan_line true (hd [] following))) /\ concat (x_in y) = concat (tl following) /\ x_off y = (off' + nlen (hd [] following))%N).
 Proof. exact fd_position_after_command_lemma. Qed.
 
-(* if k commands of the input A++B leave exactly B unread, the same k commands do the same (records, variables, aliases, options, position) whatever replaces B — a syntax error, nothing, anything — in any chunking *)
+(* if k commands of the input A++B leave exactly B unread, the same k commands do the same (records, variables, aliases, options, position, pending buffer) whatever replaces B — a syntax error, nothing, anything — in any chunking (for scripts whose reads take whole lines, i.e. without `read -d`) *)
 Theorem earlier_lines_take_effect :
-  forall parser (pf k : nat) (A B B' : list N) (d d' : dev) (m : mstate (I:=dev) (SRC:=source)), concat d = A ++ B -> concat d' = A ++ B' -> nl_terminated A -> B <> [] -> iter_n byte_ops parser k pf (init SrcStdin d) = inl m -> concat (x_in (m_x m)) = B -> exists m', iter_n byte_ops parser k pf (init SrcStdin d') = inl m' /\ concat (x_in (m_x m')) = B' /\ x_sh (m_x m') = x_sh (m_x m) /\ x_off (m_x m') = x_off (m_x m) /\ x_evs (m_x m') = x_evs (m_x m) /\ m_eof m' = m_eof m /\ m_src m' = SrcStdin.
+  forall parser (pf k : nat) (A B B' : list N) (d d' : dev) (m : mstate (I:=dev) (SRC:=source)), reads_lines parser -> concat d = A ++ B -> concat d' = A ++ B' -> nl_terminated A -> B <> [] -> iter_n byte_ops parser k pf (init SrcStdin d) = inl m -> concat (x_in (m_x m)) = B -> exists m', iter_n byte_ops parser k pf (init SrcStdin d') = inl m' /\ concat (x_in (m_x m')) = B' /\ x_sh (m_x m') = x_sh (m_x m) /\ x_off (m_x m') = x_off (m_x m) /\ x_evs (m_x m') = x_evs (m_x m) /\ m_eof m' = m_eof m /\ m_src m' = SrcStdin /\ m_pend m' = m_pend m /\ m_fed m' = m_fed m /\ m_hist m' = m_hist m.
 Proof. exact earlier_lines_take_effect_lemma. Qed.
 
-(* the same for a -c string or a script file: if k commands leave exactly the lines LB of the script unread, they do the same whatever replaces LB *)
+(* the same for a -c string or a script file (any commands, `read -d` included): if k commands leave exactly the lines LB of the script unread, they do the same whatever replaces LB *)
 Theorem earlier_lines_take_effect_separate :
-  forall parser (pf k : nat) (s s' : source) (LA LB LB' : list line) (d : dev) (m : mstate (I:=dev) (SRC:=source)), abs_src s = LLines (LA ++ LB) -> abs_src s' = LLines (LA ++ LB') -> LB <> [] -> iter_n byte_ops parser k pf (init s d) = inl m -> abs_src (m_src m) = LLines LB -> exists m', iter_n byte_ops parser k pf (init s' d) = inl m' /\ abs_src (m_src m') = LLines LB' /\ x_sh (m_x m') = x_sh (m_x m) /\ x_off (m_x m') = x_off (m_x m) /\ x_evs (m_x m') = x_evs (m_x m) /\ concat (x_in (m_x m')) = concat (x_in (m_x m)) /\ m_eof m' = m_eof m.
+  forall parser (pf k : nat) (s s' : source) (LA LB LB' : list line) (d : dev) (m : mstate (I:=dev) (SRC:=source)), abs_src s = LLines (LA ++ LB) -> abs_src s' = LLines (LA ++ LB') -> LB <> [] -> iter_n byte_ops parser k pf (init s d) = inl m -> abs_src (m_src m) = LLines LB -> exists m', iter_n byte_ops parser k pf (init s' d) = inl m' /\ abs_src (m_src m') = LLines LB' /\ x_sh (m_x m') = x_sh (m_x m) /\ x_off (m_x m') = x_off (m_x m) /\ x_evs (m_x m') = x_evs (m_x m) /\ concat (x_in (m_x m')) = concat (x_in (m_x m)) /\ m_eof m' = m_eof m /\ m_pend m' = m_pend m /\ m_fed m' = m_fed m /\ m_hist m' = m_hist m.
 Proof. exact earlier_lines_take_effect_separate_lemma. Qed.
 
 (* if the command starting at B is a syntax error, what was executed before it is exactly what the script truncated before that command executes (which then ends normally) *)
 Theorem executed_prefix_equals_truncated_script :
-  forall parser (pf k : nat) (A B : list N) (d dA : dev) (m : mstate (I:=dev) (SRC:=source)) r, (1 <= pf)%nat -> concat d = A ++ B -> concat dA = A -> nl_terminated A -> B <> [] -> iter_n byte_ops parser k pf (init SrcStdin d) = inl m -> concat (x_in (m_x m)) = B -> iter byte_ops parser pf m = inr r -> f_tag r = FSyntax -> m_eof m = false -> parser (s_ps (x_sh (m_x m))) [[]] = PEnd -> exists mA rA, iter_n byte_ops parser k pf (init SrcStdin dA) = inl mA /\ iter byte_ops parser pf mA = inr rA /\ f_tag rA = FEnd /\ f_evs rA = f_evs r /\ f_off rA = x_off (m_x m) /\ f_status rA = x_status (m_x m).
+  forall parser (pf k : nat) (A B : list N) (d dA : dev) (m : mstate (I:=dev) (SRC:=source)) r, reads_lines parser -> (1 <= pf)%nat -> concat d = A ++ B -> concat dA = A -> nl_terminated A -> B <> [] -> iter_n byte_ops parser k pf (init SrcStdin d) = inl m -> concat (x_in (m_x m)) = B -> iter byte_ops parser pf m = inr r -> f_tag r = FSyntax -> m_eof m = false -> m_pend m = false -> parser [s_ps (x_sh (m_x m))] [[]] = PEnd -> exists mA rA, iter_n byte_ops parser k pf (init SrcStdin dA) = inl mA /\ iter byte_ops parser pf mA = inr rA /\ f_tag rA = FEnd /\ f_evs rA = f_evs r /\ f_off rA = x_off (m_x m) /\ f_status rA = x_status (m_x m).
 Proof. exact executed_prefix_lemma. Qed.
 
-(* every position of standard input recorded during a run, and the final one, is a line boundary *)
+(* every position of standard input recorded during a run, and the final one, is a line boundary (when no command reads with a delimiter other than newline) *)
 Theorem positions_are_line_boundaries :
-  forall parser fuel src (d : dev), line_aligned (concat d) (obs_of_final (model_run parser fuel src d)) = true.
-Proof. exact positions_are_line_boundaries_sep_lemma. Qed.
+  forall parser fuel pf src (d : dev), reads_lines parser -> line_aligned (concat d) (obs_of_final (model_run parser fuel pf src d)) = true.
+Proof. exact positions_are_line_boundaries_lemma. Qed.
 
-(* the oracle of the check accepts everything the model can produce (no false alarms as long as the implementation behaves like the model) *)
+(* the oracle of the check accepts everything the model can produce *)
 Theorem oracle_sound :
-  forall parser fuel script data f1 f2, let o := obs_of_final (model_of parser fuel script data f1) in (shared f1 = true -> shared f2 = true -> obs_eqb (obs_of_final (model_of parser fuel script data f2)) o = true) /\ line_aligned (if shared f1 then script else data) o = true /\ obs_eqb (obs_of_final (spec_of parser fuel script data f1)) o = true.
+  forall parser fuel pf script data f1 f2, let o := obs_of_final (model_of parser fuel pf script data f1) in (shared f1 = true -> shared f2 = true -> obs_eqb (obs_of_final (model_of parser fuel pf script data f2)) o = true) /\ (reads_lines parser -> line_aligned (if shared f1 then script else data) o = true) /\ obs_eqb (obs_of_final (spec_of parser fuel pf script data f1)) o = true.
 Proof. exact oracle_sound_lemma. Qed.
 
-(* with the fuel the check computes from the input size the model never stops for lack of fuel *)
+(* the check applies the line-boundary clause exactly when the recorded parser satisfies the hypothesis of positions_are_line_boundaries *)
+Theorem table_parser_reads_lines :
+  forall t, table_reads_lines t = true -> reads_lines (tab_parser t).
+Proof. exact tab_parser_reads_lines. Qed.
+
+(* the recorded parser satisfies the bound on pending chains that the fuel of the check is computed from *)
+Theorem table_parser_depth :
+  forall t, pend_depth (tab_parser t) (table_depth t).
+Proof. exact tab_parser_depth. Qed.
+
+(* with the fuel the check computes from the input size and the depth of pending chains the model never stops for lack of fuel *)
 Theorem fuel_never_runs_out :
-  forall parser fuel src (d : dev), ends_at_eof parser -> (src_bytes src d + 2 <= fuel)%nat -> f_tag (model_run parser fuel src d) <> FOutOfFuel.
+  forall parser (K fuel pf : nat) src (d : dev), ends_at_eof parser -> pend_depth parser K -> (1 <= K)%nat -> (src_bytes src d + 2 <= pf)%nat -> (pf * K + 1 <= fuel)%nat -> f_tag (model_run parser fuel pf src d) <> FOutOfFuel.
 Proof. exact fuel_never_runs_out_lemma. Qed.
 
 Print Assumptions model_refines_spec.
@@ -86,4 +96,6 @@ Print Assumptions earlier_lines_take_effect_separate.
 Print Assumptions executed_prefix_equals_truncated_script.
 Print Assumptions positions_are_line_boundaries.
 Print Assumptions oracle_sound.
+Print Assumptions table_parser_reads_lines.
+Print Assumptions table_parser_depth.
 Print Assumptions fuel_never_runs_out.
